@@ -27,6 +27,11 @@
   (`Diagram.editModule`): the result is simply another diagram with the same wires — the theorems quantify
   over all diagrams, accepted or not.
 
+  `diagram.wires`, `diagram.modules` and `executor.diagram` are public and get edited directly between runs
+  (`Diagram.removeWire / setWire / reverseWires / delModule / setModule`; re-assigning `executor.diagram` is running
+  `execute` on another diagram): again just other diagrams.  Payloads are opaque to the executor
+  (`c16_payloads_are_opaque`), so a natural stands for a payload of any Python type.
+
   Not modelled: message texts; what a handler that mutates the dict it is given does to the recorded inputs
   of its own module (the report stores a copy taken after the handler returned; nothing else reads that dict
   again).
